@@ -87,6 +87,12 @@ type config struct {
 	terms       []termDecl
 	maxTicks    int  // number of "tick" letters allowed (0: no tick letter)
 	list        bool // "list" letter: ListInvocationChildren(QUEUED)/ListQueuedOperations order oracle
+	// inspect: read-only BuildQueueState letters (see inspect.go): "inspect"
+	// (every API in one letter) and/or the single-API letters "i:pq", "i:w", ...
+	inspect []string
+	// plats: platforms probed against the trie at every boundary (default
+	// P1, P2).
+	plats       []string
 	fail        bool // "W.fail" letters: worker reports a failed action (size class retry)
 	mixedRouter bool // invocation paths of varying depth (custom key extraction)
 	wt, qt      int  // worker / platform queue timeouts in ticks (0: beyond every horizon)
@@ -96,9 +102,14 @@ type config struct {
 	probes      []string // instance names probed against the trie at every boundary
 }
 
+// The platform string of P2 sorts BEFORE that of P1 ("arch" < "os"), that of
+// Pa before that of Pz: a queue for P1 (Pz) registered before one for P2 (Pa)
+// under the same instance name prefix is out of ListPlatformQueues' order.
 var platforms = map[string]*remoteexecution.Platform{
 	"P1": {Properties: []*remoteexecution.Platform_Property{{Name: "os", Value: "linux"}}},
 	"P2": {Properties: []*remoteexecution.Platform_Property{{Name: "arch", Value: "arm64"}, {Name: "os", Value: "linux"}}},
+	"Pa": {Properties: []*remoteexecution.Platform_Property{{Name: "os", Value: "aaa"}}},
+	"Pz": {Properties: []*remoteexecution.Platform_Property{{Name: "os", Value: "zzz"}}},
 }
 
 const farAway = 1000000 * tickUnit
@@ -389,6 +400,10 @@ func (s *sys) addLetters() {
 	}
 	if s.cfg.list {
 		s.letter("list", nil, func() { s.x.Go("op", func() { s.doList() }) })
+	}
+	for _, k := range s.cfg.inspect {
+		k := k
+		s.letter(k, nil, func() { s.x.Go("op", func() { s.doInspect(k) }) })
 	}
 	if s.cfg.maxTicks > 0 {
 		s.letter("tick", func() bool { return s.nTicks < s.cfg.maxTicks }, func() {
@@ -826,11 +841,10 @@ func (s *sys) checkBoundary() {
 	}
 
 	// Longest-prefix lookups for every probe instance name and platform.
-	var pnames []string
-	for p := range platforms {
-		pnames = append(pnames, p)
+	pnames := s.cfg.plats
+	if pnames == nil {
+		pnames = []string{"P1", "P2"}
 	}
-	sort.Strings(pnames)
 	for _, inst := range s.cfg.probes {
 		for _, p := range pnames {
 			got, found := scheduler.VerifSeqLookupLongestPrefix(s.bq, mustInst(inst), platformName(p))
